@@ -418,8 +418,28 @@ def next_hook(ex, it, rest):
 OPTIONS = {'__opaque_call__': opaque_pool_call, '__next_hook__': next_hook, 'keyerror_forks': False}
 
 
+def unused_data_hook(interp, fi, args, kwargs, node, self_cls):
+    """C08.L4: with retry disabled an input that could not be enqueued is dropped by handle_unused_data; that is
+    legitimate only for an input that was being handed to a worker that died (or that the user's function refused)"""
+    ex = interp.ex
+    env = ex.ghost.get('__poolenv__')
+    if env is None:
+        return NotImplemented
+    pool_v = env['pool']
+    a = ex.heap[pool_v.addr].attrs
+    caller = ex.frames[-1] if ex.frames else None
+    w = caller.locals.get('worker') if caller is not None else None
+    if w is not None and isinstance(w, (VAbs, VSym)):
+        died = z3.Select(ex.heap[a['_closed'].addr].dom, wkey(w))
+        ex.oblige('drop', z3.Or(a['_retry'].e, died, ex.ghost['refused']),
+                  'retry off: an input is dropped only if the worker it was being handed to has died (or the user enqueue function refused it)',
+                  node, key=('drop', getattr(node, 'lineno', 0)))
+    return NotImplemented
+
+
 def install(ex):
     common.install(ex)
+    ex.call_hooks[RUN + '.<handle_unused_data>'] = unused_data_hook
     ex.abs_classes['PWorker'] = pworker_class()
     ex.abs_classes['PConn'] = pconn_class()
 
